@@ -102,6 +102,11 @@ def run(ctx):
              "add t0, t1,\nli t2, 5\n", "frob t0\nlw t0, 4\n(sp)\n", "sw t0, lbl\nli t1, 1\n", "main:\r\n li t0, 5\r\n bad\r\n",
              "li a1, 'a\nli a2\nli a3, 'b'\n", "li a1, '\\n\nli a2, 1\n", ".asciz \"abc\nli t0, 1\n", ".word 7", "x: .word 1\n",
              "li t0, 5;\nli t1, 6\n", "é li t0, 1\nli t1, 2\n", "lui t0, 0x100000\nli t1, 1\n", ".data\nx: .word 1, 2\n  3\ny: .byte 1\n"]
+    # a literal cut off by the end of its line right behind a backslash (round 9: the unknown-escape path skipped two
+    # characters, the second being the newline, so the recovery ran over the following line)
+    texts += [".data\nmsg: .asciz \"Enter a value: \\\ncount: .word 0\n.text\nmain:\n la t0, count\n li a7, 10\n ecall\n",
+              "main:\n li a0, '\\\n li a1, 2\n addi a1, a1, 1\n", "main:\n li t0, 1\n.string \"a\\\nx: addi t0, t0, 1\n j x\n",
+              "li a0, '\\u00\nli a1, 3\nli a2, 4\n", ".ascii \"\\u12\nlbl: li t1, 1\n", "li t0, \"\\\n\nli t1, 2\n", "li a0, '\\q\nli a1, 2\n"]
     for _ in range(120 * k):
         texts.append(gen.render(rng, gen.program(rng)))
     for _ in range(200 * k):
